@@ -4,6 +4,7 @@ import Pcore.Proofs.FilesPath
 import Pcore.Proofs.FilesGlobal
 import Pcore.Proofs.FilesModule
 import Pcore.Proofs.FilesError
+import Pcore.Proofs.FilesAbsent
 /-!
 # C15 — File-based loading maps names to definition files faithfully
 
@@ -28,8 +29,11 @@ Full statement / proved / missing
 * `C15_name`, `C15_found_sound` (proved, full: the "only if" half of found ⇔ file, and the name clause) — whenever a lookup
   answers `found d`, `d` carries the requested name up to letter case and is justified: it is a core type, or some file of
   the tree that sits where the index points for that name (or for the enclosing type set) defines it.
+* `C15_absent` (proved, FULL: every context loader, name, state and fuel) — when no loader has an origin for the name or
+  any of its prefixes (and its first segment's module has no `init_typeset`), the lookup never answers `found`, reads
+  nothing and changes the caches by nil placeholders only.
 * `C15_found_iff_global`, `C15_absent_global`, `C15_error_global` (proved; PARTIAL with respect to `C15_found_iff_full` /
-  `C15_absent_full` / `C15_error_full`) — the "if" half, absence and error location for the global loader used as the
+  `C15_error_full`) — the "if" half, absence and error location for the global loader used as the
   context's loader, for a name the cache does not hold yet whose first origin is not a type set.
 * `C15_found_iff_module`, `C15_found_iff_dependency`, `C15_module_outcome`, `C15_dependency_outcome` (proved; partial) —
   the same for a module-relative name `Mod::X` through the module's loader and through the dependency loader, when the
@@ -194,11 +198,52 @@ theorem C15_found_iff_global (cfg : Cfg) (hv : cfg.via = .g) (name : Name) (s : 
           exact ⟨k, nm, ⟨rfl, rfl⟩, hk⟩
         · simp [hb, hk]
 
-def C15_absent_full : Prop :=
-  ∀ (cfg : Cfg) (name : Name) (fuel : Nat) (s : St), fuel ≥ 5000 → sysLoad name = none →
-    (∀ l pre, pre ≠ [] → pre <+: name → idx cfg l (keyOf pre) = []) →
-    (loadS fuel cfg s name).1 = .notfound ∧ (loadS fuel cfg s name).2.reads = s.reads ∧
-      ∀ l k d, (loadS fuel cfg s name).2.get l k = some (some d) → s.get l k = some (some d)
+/-- FULL, for every context loader, name, state and fuel: when no loader has an origin for the name or for any of its
+    prefixes (and the module named by its first segment has no `init_typeset`; no prefix is a core type) and no cache holds
+    a definition for them, the lookup never answers `found` (it answers `notfound`, or reports the invalid characters of
+    the name), reads nothing, and changes the caches by nil placeholders only -/
+theorem C15_absent (cfg : Cfg) (name : Name) (hne : name ≠ []) (fuel : Nat) (s : St)
+    (ha : AbsentRoute cfg name) (h0 : NoDef name s) :
+    (∀ d, (loadS fuel cfg s name).1 ≠ .found d) ∧ (loadS fuel cfg s name).2.reads = s.reads ∧
+      Frame s (loadS fuel cfg s name).2 :=
+  absent_loadS ha h0 hne fuel
+
+def absCfg : Cfg :=
+  { mods := ["mymod", "other"], via := .d, tree := [(["env", "types", "thing.pp"], .typ .alias ["Thing"] [])] }
+
+/-- non-vacuity: a nested absent name below a module, through the dependency loader, next to a file that does exist -/
+example : AbsentRoute absCfg ["Other", "Sub", "Nope"] ∧ NoDef ["Other", "Sub", "Nope"] ({} : St) ∧
+    loadS 40 absCfg {} ["Other", "Sub", "Nope"] =
+      (.notfound, (({} : St).put .g ["other", "sub", "nope"] none |>.put (.m "other") ["other", "sub", "nope"] none
+        |>.put .d ["other", "sub", "nope"] none)) := by
+  have hpre : ∀ nm : Name, OnRoute ["Other", "Sub", "Nope"] nm →
+      nm = ["Other"] ∨ nm = ["Other", "Sub"] ∨ nm = ["Other", "Sub", "Nope"] := by
+    intro nm ⟨hne, t, ht⟩
+    match nm, hne, ht with
+    | [], hne, _ => exact absurd rfl hne
+    | [x], _, ht =>
+      simp at ht
+      exact Or.inl (by rw [ht.1])
+    | [x, y], _, ht =>
+      simp at ht
+      exact Or.inr (Or.inl (by rw [ht.1, ht.2.1]))
+    | [x, y, z], _, ht =>
+      simp at ht
+      exact Or.inr (Or.inr (by rw [ht.1, ht.2.1, ht.2.2.1]))
+    | x :: y :: z :: w :: r, _, ht => simp at ht
+  refine ⟨⟨?_, ?_, ?_⟩, ?_, by decide⟩
+  · intro l nm hr
+    cases l with
+    | m mod =>
+      -- the only file lies below `env`: no module indexes it
+      simp [idx, absCfg, fileKeys, relOf, spOf, SmartPath.generic]
+    | g => rcases hpre nm hr with h | h | h <;> subst h <;> decide
+    | d => rcases hpre nm hr with h | h | h <;> subst h <;> decide
+  · intro mod _
+    simp [idx, absCfg, fileKeys, relOf, spOf, SmartPath.generic]
+  · intro nm hr
+    rcases hpre nm hr with h | h | h <;> subst h <;> decide
+  · intro l nm d _ h; cases h
 
 /-- no file: the answer is `notfound`, nothing is read, and the only change is a placeholder for that name -/
 theorem C15_absent_global (cfg : Cfg) (hv : cfg.via = .g) (name : Name) (s : St) (n : Nat)
@@ -493,5 +538,19 @@ theorem C15_duplicate_redefine :
     (runLoads 40 dupCfg {} [["Mymod", "Thing"], ["Mymod", "Thing"]]).2.reads =
       [["env", "types", "mymod", "thing.pp"], ["modules", "mymod", "types", "thing.pp"]] := by
   decide
+
+/-- the full "found ⇔ a justified definition exists" is false as stated: for the layout of `C15_duplicate_redefine` the
+    first lookup reports a redefinition although a file at the derived path defines the name -/
+theorem C15_found_iff_fails : ¬ C15_found_iff_full := by
+  intro h
+  have h1 := (h dupCfg ["Mymod", "Thing"] 5000 (Nat.le_refl _) (by decide)).mpr
+    ⟨⟨.object, ["Mymod", "Thing"]⟩, rfl, by decide,
+      Or.inr ⟨["env", "types", "mymod", "thing.pp"], .typ .object ["Mymod", "Thing"] [], by decide,
+        Or.inl ⟨[], rfl, .g, Or.inl (by decide)⟩⟩⟩
+  obtain ⟨d, hd⟩ := h1
+  have h2 : (loadS 5000 dupCfg {} ["Mymod", "Thing"]).1 = .failed (.reported "PCORE_ATTEMPT_TO_REDEFINE_TYPE" none 0) := by
+    decide
+  rw [h2] at hd
+  cases hd
 
 end Pcore.Files
